@@ -110,18 +110,62 @@ func (t *thrModel) resolveCallee(ci ssa.CallInstruction) *ssa.Function {
 	return nil
 }
 
+// paramBinding: what a call passes for each parameter of its (static) callee.
+type paramBinding map[*ssa.Parameter]ssa.Value
+
+func bindingOf(ci ssa.CallInstruction, g *ssa.Function) paramBinding {
+	args := ci.Common().Args
+	if g == nil || len(args) != len(g.Params) {
+		return nil
+	}
+	b := paramBinding{}
+	for i, p := range g.Params {
+		b[p] = args[i]
+	}
+	return b
+}
+
+// rootUnder: the root of v; a parameter of a function with several callers is resolved through the
+// binding of the call under consideration (a release helper shared by several sessions gets its key
+// as an argument).
+func (t *thrModel) rootUnder(v ssa.Value, bind paramBinding) ssa.Value {
+	r := t.sl.rootOf(v)
+	for i := 0; i < 3 && bind != nil; i++ {
+		noParamLook++
+		sr := strip(r)
+		noParamLook--
+		p, ok := sr.(*ssa.Parameter)
+		if !ok {
+			break
+		}
+		a, ok := bind[p]
+		if !ok {
+			break
+		}
+		r = t.sl.rootOf(a)
+	}
+	return r
+}
+
 // releasesIn: does fn (or a function it calls unconditionally at depth ≤ 2) delete table[key≡root] / reset dkgRunning?
-func (t *thrModel) releasesIn(fn *ssa.Function, r registration, depth int) bool {
+func (t *thrModel) releasesIn(fn *ssa.Function, r registration, depth int, bind paramBinding) bool {
 	if fn == nil || depth > 2 {
 		return false
 	}
 	for _, in := range instrsOf(fn) {
-		if t.isDirectRelease(in, r) {
+		if t.isDirectReleaseB(in, r, bind) {
 			return true
 		}
 		if ci, ok := in.(ssa.CallInstruction); ok {
-			if g := t.resolveCallee(ci); g != nil && g != fn && pkgPathOf(g) == PkgThreshold && t.releasesIn(g, r, depth+1) {
-				return true
+			if g := t.resolveCallee(ci); g != nil && g != fn && pkgPathOf(g) == PkgThreshold {
+				// arguments of the inner call, themselves resolved under the current binding
+				inner := bindingOf(ci, g)
+				for p, a := range inner {
+					inner[p] = t.rootUnder(a, bind)
+				}
+				if t.releasesIn(g, r, depth+1, inner) {
+					return true
+				}
 			}
 		}
 	}
@@ -129,6 +173,10 @@ func (t *thrModel) releasesIn(fn *ssa.Function, r registration, depth int) bool 
 }
 
 func (t *thrModel) isDirectRelease(in ssa.Instruction, r registration) bool {
+	return t.isDirectReleaseB(in, r, nil)
+}
+
+func (t *thrModel) isDirectReleaseB(in ssa.Instruction, r registration, bind paramBinding) bool {
 	if r.key == nil {
 		st, ok := in.(*ssa.Store)
 		if !ok {
@@ -150,7 +198,13 @@ func (t *thrModel) isDirectRelease(in ssa.Instruction, r registration) bool {
 		return false
 	}
 	args := ci.Common().Args
-	return isLoadOfField(args[0], r.table) && t.sl.sameRoot(args[1], r.key)
+	if !isLoadOfField(args[0], r.table) {
+		return false
+	}
+	if t.sl.sameRoot(args[1], r.key) {
+		return true
+	}
+	return bind != nil && t.rootUnder(args[1], bind) == t.sl.rootOf(r.key)
 }
 
 // isReleaseInstr: a direct release, or a call/defer of a releasing function.
@@ -162,7 +216,7 @@ func (t *thrModel) isReleaseInstr(in ssa.Instruction, r registration) bool {
 		if _, isGo := in.(*ssa.Go); isGo {
 			return false
 		}
-		if g := t.resolveCallee(ci); g != nil && pkgPathOf(g) == PkgThreshold && t.releasesIn(g, r, 0) {
+		if g := t.resolveCallee(ci); g != nil && pkgPathOf(g) == PkgThreshold && t.releasesIn(g, r, 0, bindingOf(ci, g)) {
 			return true
 		}
 	}
